@@ -76,7 +76,7 @@ func genApi(c *Config, r *rand.Rand) {
 		case 5, 6, 7:
 			ops = append(ops, ApiOp{Op: "create-connector", Ref: r.IntN(3), Type: pick(r, 1, 1, 2, 2, 0), Plugin: pick(r, "sim-src", "sim-dst", "sim-dst", ""), Name: pick(r, "conn", "c ö", ""), Settings: genSettings(r)})
 		case 8:
-			ops = append(ops, ApiOp{Op: "update-connector", Ref: r.IntN(4), Plugin: pick(r, "sim-src", "sim-dst"), Name: pick(r, "conn2", "c"), Settings: genSettings(r)})
+			ops = append(ops, ApiOp{Op: "update-connector", Ref: r.IntN(4), Plugin: pick(r, "sim-src", "sim-dst", "sim-dst", pluginGone), Name: pick(r, "conn2", "c"), Settings: genSettings(r)})
 		case 9:
 			ops = append(ops, ApiOp{Op: "delete-connector", Ref: r.IntN(4)})
 		case 10, 11:
